@@ -656,3 +656,132 @@ func ruleCloseAckUnregisters(c *Check, a *Analysis, rule string) {
 		c.Undecided(rule, "no close-acknowledgement branch (upgrade.Stream == closeStream) found in the response reader")
 	}
 }
+
+// ruleQueuePerConn (C05): the queues of a poll-mode connection are that connection's own.
+func ruleQueuePerConn(c *Check, a *Analysis, rule string) {
+	p := c.P
+	c.Rule(rule, "every queue stored into a poll-mode connection context (ServerContext.sched / pipeline / readStream) is created by scheduler.New in the very function that builds that context — one per accepted connection — and is not a queue captured from the enclosing listener scope: connections sharing one worker hold each other up, and one connection's teardown closes (and runs inline) the others' queued requests", 2)
+	sc := siteCounter{}
+	n := 0
+	for _, f := range []string{"sched", "pipeline", "readStream"} {
+		for _, s := range p.storesToField("ServerContext", f) {
+			st := s.Instr.(*ssa.Store)
+			if nilConst(st.Val) {
+				continue
+			}
+			n++
+			ok := true
+			why := ""
+			for _, o := range p.origins(st.Val) {
+				o = p.canon(o)
+				if nilConst(o) {
+					continue
+				}
+				cc, isC := o.(*ssa.Call)
+				if !isC || calleeName(cc) != "scheduler.New" {
+					ok, why = false, describe(o)
+					continue
+				}
+				if cc.Parent() != st.Parent() && !p.sameFn(cc.Parent(), st.Parent()) {
+					ok, why = false, "a queue created in "+fname(cc.Parent())+" (once per listener)"
+				}
+			}
+			c.Ob(rule, sc.key(s.Fn, "ServerContext."+f+" created per connection"), p.InstrPos(st), ok, ifs(!ok, "the connection's "+f+" queue is "+why+", not one created for this connection"))
+		}
+	}
+	if n == 0 {
+		c.Undecided(rule, "no store into ServerContext.sched/pipeline/readStream found")
+	}
+}
+
+// ruleUpdateFresh (C16/C18): Update installs fresh target records.
+func ruleUpdateFresh(c *Check, a *Analysis, rule string) {
+	p := c.P
+	c.Rule(rule, "every record Update puts into the new target map is allocated by that Update call (never carried over from the previous map): the detector probes only records whose alive flag is false and the live list is rebuilt only by a probe, so carried-over records that still say alive are never probed and the cleared live list stays empty — every caller waits out its timeout although healthy targets are configured", 1)
+	up := p.Fn("(*Client).Update")
+	if up == nil {
+		c.Undecided(rule, "(*Client).Update not found")
+		return
+	}
+	sc := siteCounter{}
+	n := 0
+	eachInstr(up, func(in ssa.Instruction) {
+		mu, ok := in.(*ssa.MapUpdate)
+		if !ok || !strings.HasSuffix(mu.Map.Type().String(), "map[string]*"+rpcPath+".target") {
+			return
+		}
+		n++
+		okf := true
+		why := ""
+		for _, o := range p.origins(mu.Value) {
+			o = p.canon(o)
+			if al, isA := o.(*ssa.Alloc); isA && al.Parent() == in.Parent() {
+				continue
+			}
+			okf, why = false, describe(o)
+		}
+		c.Ob(rule, sc.key(up, "new map holds records allocated here"), p.InstrPos(in), okf, ifs(!okf, "Update installs "+why+" — a record of the previous configuration, alive flag and all"))
+	})
+	if n == 0 {
+		c.Undecided(rule, "Update does not fill a target map")
+	}
+}
+
+// ruleSnapshotCompare (C18): the live-set comparison looks at the whole lists.
+func ruleSnapshotCompare(c *Check, a *Analysis, rule string) {
+	p := c.P
+	c.Rule(rule, "the test that decides whether the live list is rebuilt compares the new address list with Client.last completely — reflect.DeepEqual, or a comparison helper that also compares the two lengths: a helper that only walks one list calls a list that lost its last element `unchanged`, and the dead target keeps its share of calls", 0)
+	sc := siteCounter{}
+	for _, fn := range p.Fns {
+		if recvName(topParent(fn)) != "Client" {
+			continue
+		}
+		eachInstr(fn, func(in ssa.Instruction) {
+			cc, ok := in.(*ssa.Call)
+			if !ok || len(cc.Common().Args) != 2 {
+				return
+			}
+			usesLast := false
+			for _, arg := range cc.Common().Args {
+				for _, o := range p.origins(arg) {
+					if isLoadOf(p.canon(o), "Client", "last") {
+						usesLast = true
+					}
+				}
+			}
+			if !usesLast {
+				return
+			}
+			cal := cc.Common().StaticCallee()
+			if cal == nil {
+				return
+			}
+			if cal.String() == "reflect.DeepEqual" {
+				c.Ob(rule, sc.key(fn, "live set compared with DeepEqual"), p.InstrPos(in), true, "")
+				return
+			}
+			if cal.Pkg != p.RPC || cal.Blocks == nil || cal.Signature.Results().Len() != 1 {
+				return
+			}
+			// a comparison helper of the package: it must compare the lengths of its two parameters
+			lens := false
+			eachInstrLocal(cal, func(x ssa.Instruction) {
+				b, isB := x.(*ssa.BinOp)
+				if !isB || (b.Op != token.EQL && b.Op != token.NEQ) {
+					return
+				}
+				isLenOf := func(v ssa.Value, prm *ssa.Parameter) bool {
+					lc, ok := v.(*ssa.Call)
+					return ok && calleeName(lc) == "builtin len" && len(lc.Call.Args) == 1 && lc.Call.Args[0] == ssa.Value(prm)
+				}
+				if len(cal.Params) >= 2 {
+					p0, p1 := cal.Params[len(cal.Params)-2], cal.Params[len(cal.Params)-1]
+					if (isLenOf(b.X, p0) && isLenOf(b.Y, p1)) || (isLenOf(b.X, p1) && isLenOf(b.Y, p0)) {
+						lens = true
+					}
+				}
+			})
+			c.Ob(rule, sc.key(fn, "comparison helper compares lengths"), p.InstrPos(in), lens, ifs(!lens, fname(cal)+" decides whether the live set changed without comparing the lengths of the two lists: a live set that only lost (or only gained) trailing elements counts as unchanged"))
+		})
+	}
+}
